@@ -26,10 +26,19 @@ def groups(tier):
              cfg=dict(threads=2, ops=2, pre=1, gran='fine', pb=2, allow_stop=False), budget=900),
     ]
     if tier == 'thorough':
+        # (all programs of 2x3 or 3x2 operations under every interleaving do not finish: > 10^6 runs each; measured, see DESIGN.md 10.5.
+        #  The thorough tier deepens along the axes that do finish.)
+        P = lambda *ops: [tuple(o) for o in ops]
         g += [
-            dict(id='M.C18.t2o3', desc='2 threads x 3 operations', bounds='2 threads x 3 ops, 1 pre-existing handle, coarse', cfg=dict(threads=2, ops=3, pre=1, gran='coarse', allow_stop=False), budget=3000),
-            dict(id='M.C18.t3o2', desc='3 threads x 2 operations', bounds='3 threads x 2 ops, 1 pre-existing handle, coarse', cfg=dict(threads=3, ops=2, pre=1, gran='coarse', allow_stop=False), budget=3000),
-            dict(id='M.C18.fine3', desc='fine granularity, at most 3 preemptions', bounds='2 threads x 2 ops, fine, <=3 preemptions', cfg=dict(threads=2, ops=2, pre=1, gran='fine', pb=3, allow_stop=False), budget=3000),
+            dict(id='M.C18.fine3', desc='fine granularity, at most 3 preemptions', bounds='2 threads x 2 ops, 1 pre-existing handle, fine, <=3 preemptions', cfg=dict(threads=2, ops=2, pre=1, gran='fine', pb=3, allow_stop=False), budget=3000),
+            dict(id='M.C18.fine4', desc='fine granularity, at most 4 preemptions', bounds='2 threads x 2 ops, 1 pre-existing handle, fine, <=4 preemptions', cfg=dict(threads=2, ops=2, pre=1, gran='fine', pb=4, allow_stop=False), budget=3000),
+            dict(id='M.C18.t3o1', desc='3 threads x 1 operation, every program and interleaving', bounds='3 threads x 1 op, 1 pre-existing handle, coarse', cfg=dict(threads=3, ops=1, pre=1, gran='coarse', allow_stop=False), budget=3000),
+            dict(id='M.C18.t3.newdrop', desc='3 threads each creating and dropping a handle (possibly equal contents), at most 3 preemptions', bounds='3 threads x (new, drop), coarse, <=3 preemptions',
+                 cfg=dict(programs=[P(('new', 'a'), ('drop', 0)), P(('new', 'b'), ('drop', 0)), P(('new', 'c'), ('drop', 0))], pre=0, gran='coarse', pb=3), budget=3000),
+            dict(id='M.C18.p3.churn', desc='2 threads x 3 operations: create / drop / create against create / create / drop, every interleaving', bounds='fixed programs, coarse',
+                 cfg=dict(programs=[P(('new', 'a'), ('drop', 0), ('new', 'b')), P(('new', 'c'), ('new', 'd'), ('drop', 0))], pre=0, gran='coarse'), budget=3000),
+            dict(id='M.C18.p3.clone', desc='2 threads x 3 operations: clone / drop / drop of a pre-existing handle against create / drop / create', bounds='fixed programs, 1 pre-existing handle, coarse',
+                 cfg=dict(programs=[P(('clone', 0), ('drop', 0), ('drop', 0)), P(('new', 'c'), ('drop', 0), ('new', 'd'))], pre=1, gran='coarse'), budget=3000),
         ]
     return g
 
